@@ -1,7 +1,7 @@
 (** Executable models of the disassembler and the lifter instantiated with the
     data of this run (for extraction). *)
-From RV Require Import Model.Base Model.Spirv Model.Decoder Model.Module Model.Inst Model.Parser Model.Loader Model.Disasm.
-From RV Require Import Inst.Linked Inst.Run Inst.DisVocab.
+From RV Require Import Model.Base Model.Spirv Model.Decoder Model.Module Model.Inst Model.Parser Model.Loader Model.Disasm Model.Lift.
+From RV Require Import Inst.Linked Inst.Run Inst.DisVocab Inst.C18_inst.
 
 (** load the bytes, then disassemble the loaded module: header comment data,
     one token line per instruction, and whether the real call panics *)
@@ -18,5 +18,12 @@ Definition dis_case (bytes : list N) : option (option dhead * list (list dtok) *
 Definition dis_own_case (bytes : list N) : option (list (list dtok)) :=
   match load_case bytes with
   | (w, Ok _) => Some (map (dis_inst V) (eval c15_fuel Gen.TraverseData.defs (VMod (l_module (lw_state w))) (TCall "all_inst_iter")))
+  | _ => None
+  end.
+
+(** load the bytes, then lift the loaded module *)
+Definition lift_case (bytes : list N) : option (lres sr_module) :=
+  match load_case bytes with
+  | (w, Ok _) => let s := lw_state w in Some (lift_module lift_D (l_header s) (l_module s))
   | _ => None
   end.
